@@ -223,7 +223,7 @@ var knownRepros = map[string]FaultCase{
 
 func TestC28(t *testing.T) {
 	rec := evid.Start(t, "C28", "every (item, engine, step, callback kind, k-th call, variant in {error, panic-error, panic-value}) of the clean-run host trace is re-run with that fault injected; "+
-		"non-trivial = the fault point was reached and fired (all enumerated points are); distinct by (item, engine, step, kind, k, variant); "+
+		"non-trivial = the fault point was reached and fired (all enumerated points are); distinct by (item, engine, step, kind, k, variant); hand-written corpus: every k; generated histories: every k <= 3 plus a 1/40 sample; "+
 		"pairs: first fault is a documented swallower (ValidatePublicKey error / fault inside tryUpdate), second fault at every later point")
 
 	if p := evid.ReplayFile(); p != "" {
@@ -250,8 +250,14 @@ func TestC28(t *testing.T) {
 	}
 
 	items := execgen.FullCorpus()
-	nGen := evid.N(24, 400)
-	items = append(items, execgen.Generated(evid.Rand(28), nGen)...)
+	nCorpus := len(items)
+	// generated histories: per registered source (own templates and plugged-in generator packages)
+	items = append(items, execgen.Generated(evid.Rand(28), evid.N(3, 40))...)
+	isCorpus := map[string]bool{}
+	for _, it := range items[:nCorpus] {
+		isCorpus[it.Name] = true
+	}
+	sampler := evid.Rand(2828)
 	// shard the items
 	var mine []execgen.Item
 	for i, it := range items {
@@ -274,10 +280,23 @@ func TestC28(t *testing.T) {
 					rec.Violation(t, FaultCase{Item: it, Engine: int(eng), Step: si}, "clean run panicked: %v", clean.Panic)
 				}
 				cleanOK := clean.Err == nil
-				if !cleanOK && !step.MayFail {
+				if !cleanOK && !step.MayFail && strings.HasPrefix(it.Hist.Origin, "execgen/") {
 					rec.Inconclusive(t, "item %s step %d fails in the clean run on %s: %v", it.Name, si, eng, clean.Err)
 				}
-				for _, pt := range pointsOf(clean.Trace) {
+				pts := pointsOf(clean.Trace)
+				if !isCorpus[it.Name] {
+					// generated histories: every k <= 3 of every kind, plus a sample of the later calls
+					// (the hand-written corpus is enumerated completely)
+					var keep []stepPoint
+					for _, pt := range pts {
+						if pt.index <= 3 || sampler.Intn(40) == 0 {
+							keep = append(keep, pt)
+						}
+					}
+					rec.ClassN("generated-points-skipped-by-sampling", int64(len(pts)-len(keep)))
+					pts = keep
+				}
+				for _, pt := range pts {
 					kindsSeen[pt.kind] = true
 					for _, variant := range faultVariants {
 						fc := FaultCase{Item: it, Engine: int(eng), Step: si, Kind: pt.kind, Index: pt.index, Variant: variant}
